@@ -113,6 +113,7 @@ package flags
 
 //@ func closestChoice(cmd string, choices []string) (c string, d int)
 //@   props C20 C04
+//@   traced
 //@   loop 1 invariant len(choices) > 0
 //@   loop 1 invariant idx_1 == 0 ==> mincmd == -1
 //@   loop 1 invariant idx_1 > 0 ==> 0 <= mincmd && mincmd < idx_1 && mindist == editDistance(cmd, choices[mincmd])
@@ -425,9 +426,6 @@ package flags
 //@ assumed func (c *completion) complete(args []string) (r []Completion)
 //@ assumed func (c *completion) print(items []Completion, showDescriptions bool)
 //@   traced
-//@ assumed func (p *parseState) estimateCommand() (err error)
-//@   traced
-//@   ensures isTyped(err, ErrUnknownCommand) || isTyped(err, ErrCommandRequired)
 //@ assumed func Commander.Execute(c Commander, args []string) (err error)
 //@   traced
 //@   ensures is(err, *Error) ==> as(err, *Error) != nil
@@ -520,11 +518,38 @@ package flags
 
 //@ func (c *Command) sortedVisibleCommands() (r []*Command)
 //@   props C08 C16 C20 C15 C04
+//@   traced
 //@   requires c != nil
 //@   ensures[C16,C20] forall(i, 0, len(r), r[i] != nil && !r[i].Hidden)
 //@   ensures[C08,C16,C20] forall(i, 0, len(r), subOf(r[i], c))
 //@   ensures[C16,C20] forall(j, 0, len(c.commands), !c.commands[j].Hidden ==> exists(i, 0, len(r), r[i] == c.commands[j]))
 //@   ensures[C15,C20] forall(i, 0, len(r), forall(j, i, len(r), r[i].Name <= r[j].Name))
+//@   assigns nothing
+
+// The diagnosis of a missing or unknown command (C20, C08): the candidates
+// are exactly the sorted visible subcommands of the innermost command; the
+// nearest one is suggested iff its distance is below half its length (the
+// float32 quotient is modelled over the reals), otherwise all are enumerated.
+//@ func (p *parseState) estimateCommand() (err error)
+//@   props C20 C08 C04
+//@   traced
+//@   requires p != nil && p.command != nil
+//@   let sv0 := ncalls(Command.sortedVisibleCommands)
+//@   let cc0 := ncalls(closestChoice)
+//@   loop 1 invariant len(cmdnames) == len(commands) && forall(j, 0, idx_1, cmdnames[j] == commands[j].Name)
+//@   ensures is(err, *Error) && as(err, *Error) != nil
+//@   ensures[C08] len(p.retargs) != 0 ==> as(err, *Error).Type == ErrUnknownCommand
+//@   ensures[C08] len(p.retargs) == 0 ==> as(err, *Error).Type == ErrCommandRequired
+//@   ensures[C20,C08] ncalls(Command.sortedVisibleCommands) == sv0 + 1 && callarg(Command.sortedVisibleCommands, sv0, 0) == p.command
+//@   ensures[C20] len(p.retargs) == 0 ==> ncalls(closestChoice) == cc0
+//@   ensures[C20] len(p.retargs) != 0 ==> ncalls(closestChoice) == cc0 + 1 && callarg(closestChoice, cc0, 0) == p.retargs[0] && len(callarg(closestChoice, cc0, 1)) == len(callres(Command.sortedVisibleCommands, sv0, 0))
+//@   ensures[C20] len(p.retargs) != 0 ==> forall(i, 0, len(callres(Command.sortedVisibleCommands, sv0, 0)), callarg(closestChoice, cc0, 1)[i] == callres(Command.sortedVisibleCommands, sv0, 0)[i].Name)
+//@   ensures[C20] len(p.retargs) != 0 && 2*callres(closestChoice, cc0, 1) < len(callres(closestChoice, cc0, 0)) ==> as(err, *Error).Message == "Unknown command `" + p.retargs[0] + "', did you mean `" + callres(closestChoice, cc0, 0) + "'?"
+//@   ensures[C20] len(p.retargs) != 0 && 2*callres(closestChoice, cc0, 1) >= len(callres(closestChoice, cc0, 0)) && len(callres(Command.sortedVisibleCommands, sv0, 0)) > 1 ==> as(err, *Error).Message == "Unknown command `" + p.retargs[0] + "'. Please specify one command of: " + strings.Join(callarg(closestChoice, cc0, 1)[:len(callarg(closestChoice, cc0, 1))-1], ", ") + " or " + callarg(closestChoice, cc0, 1)[len(callarg(closestChoice, cc0, 1))-1]
+//@   ensures[C20] len(p.retargs) != 0 && 2*callres(closestChoice, cc0, 1) >= len(callres(closestChoice, cc0, 0)) && len(callres(Command.sortedVisibleCommands, sv0, 0)) == 1 ==> as(err, *Error).Message == "Unknown command `" + p.retargs[0] + "'. You should use the " + callres(Command.sortedVisibleCommands, sv0, 0)[0].Name + " command"
+//@   ensures[C20] len(p.retargs) != 0 && 2*callres(closestChoice, cc0, 1) >= len(callres(closestChoice, cc0, 0)) && len(callres(Command.sortedVisibleCommands, sv0, 0)) == 0 ==> as(err, *Error).Message == "Unknown command `" + p.retargs[0] + "'"
+//@   ensures[C20] len(p.retargs) == 0 && len(callres(Command.sortedVisibleCommands, sv0, 0)) == 1 ==> as(err, *Error).Message == "Please specify the " + callres(Command.sortedVisibleCommands, sv0, 0)[0].Name + " command"
+//@   ensures[C20] len(p.retargs) == 0 && len(callres(Command.sortedVisibleCommands, sv0, 0)) == 0 ==> as(err, *Error).Message == ""
 //@   assigns nothing
 
 // ===================================================================
